@@ -153,6 +153,7 @@ impl fmt::Pointer for Epoch {
 impl fmt::Octal for Epoch {
     /// Prints the Epoch in GPS
     fn fmt(&self, f: &mut fmt::Formatter) -> fmt::Result {
-        write!(f, "{}", self.to_gpst_nanoseconds().unwrap())
+        // There is no such count before the GPS reference epoch or more than a century after it.
+        write!(f, "{}", self.to_gpst_nanoseconds().map_err(|_| fmt::Error)?)
     }
 }
